@@ -43,7 +43,15 @@ func (g *gen) setup(raw string) {
 
 // sweep runs an op with the tier's choice of failure indices.
 func (g *gen) sweep(raw string) {
-	g.w.doOp(g.tr, parseLine("op "+raw), func(n int, o *opDef) ([]int, []int) {
+	g.w.doOp(g.tr, parseLine("op "+raw), func(n int, kinds string, o *opDef) ([]int, []int) {
+		if o.name == "StoreSector" && strings.Contains(o.line, "fn=fail") {
+			// single-fault quantifier: the data write already fails; the compensating transaction (second
+			// `b`) is not failed on top of it
+			if i := strings.Index(kinds[1:], "b"); i >= 0 {
+				n = i + 1
+			}
+			return g.pickKs(n), nil
+		}
 		return g.pickKs(n), g.pickCrash(n, o)
 	})
 }
@@ -257,7 +265,7 @@ func (g *gen) randomStoreOp() string {
 				return fmt.Sprintf("name=CreditAccountWithContract a=%d c=%d rev=%d amt=%d cost=%d", 1+r.Intn(nAccounts), c.n, c.rev+1, 10+r.Intn(90), r.Intn(5))
 			}
 		case x < 45:
-			return fmt.Sprintf("name=DebitAccount a=%d u=%s", 1+r.Intn(nAccounts), g.u8(6, false))
+			return fmt.Sprintf("name=DebitAccount a=%d u=%s", g.fundedAccount(b.bal3), g.u8(4, false))
 		case x < 50:
 			if cs := g.liveContracts(true, false); len(cs) > 0 {
 				c := cs[r.Intn(len(cs))]
@@ -268,7 +276,7 @@ func (g *gen) randomStoreOp() string {
 				return fmt.Sprintf("name=RHP4CreditAccounts c=%d rev=%d ws=%d we=%d locked=5 deps=[%s] u=%s", c.n, c.rev+1, c.ws, c.we, strings.Join(deps, ","), g.u8(5, true))
 			}
 		case x < 54:
-			return fmt.Sprintf("name=RHP4DebitAccount a=%d u=%s", 1+r.Intn(nAccounts), g.u8(6, true))
+			return fmt.Sprintf("name=RHP4DebitAccount a=%d u=[%d,%d,%d,%d,0,0,0,0]", g.fundedAccount(b.bal4), r.Intn(4), r.Intn(4), r.Intn(4), r.Intn(4))
 		case x < 58:
 			return fmt.Sprintf("name=SetRegistryValue k=%d rev=%d data=%d exp=%d", 1+r.Intn(nRegKeys), r.Intn(6), r.Intn(100), 100+r.Intn(50))
 		case x < 61:
@@ -342,8 +350,7 @@ func (g *gen) randomStoreOp() string {
 			return vhlib.Pick(r, fmt.Sprintf("name=IncrementRHPDataUsage in=%d eg=%d", r.Intn(99), r.Intn(99)),
 				fmt.Sprintf("name=IncrementSectorStats r=%d w=%d", r.Intn(9), r.Intn(9)), fmt.Sprintf("name=IncrementRegistryAccess r=%d w=%d", r.Intn(9), r.Intn(9)))
 		default:
-			return vhlib.Pick(r, fmt.Sprintf("name=AddPeer p=%d", 1+r.Intn(nPeers)), fmt.Sprintf("name=Ban p=%d", 1+r.Intn(nPeers)),
-				fmt.Sprintf("name=MigrateSectors v=%d start=0", 1))
+			return vhlib.Pick(r, fmt.Sprintf("name=AddPeer p=%d", 1+r.Intn(nPeers)), fmt.Sprintf("name=Ban p=%d", 1+r.Intn(nPeers)))
 		}
 	}
 	return "name=UpdateSettings v=1"
@@ -474,7 +481,7 @@ func (g *gen) managerHistory(n int, withHooks, withDeviant bool) {
 					line = fmt.Sprintf("name=A.Credit a=%d c=%d rev=%d amt=%d cost=%d", 1+r.Intn(nAccounts), c.n, c.rev+1, 10+r.Intn(90), r.Intn(5))
 				}
 			case x < 72:
-				line = fmt.Sprintf("name=A.BudgetCommit a=%d max=%d u=%s", 1+r.Intn(nAccounts), 5+r.Intn(40), g.u8(3, false))
+				line = fmt.Sprintf("name=A.BudgetCommit a=%d max=%d u=[%d,%d,%d,%d,%d,%d,0,0]", g.fundedAccount(b.bal3), 12+r.Intn(12), r.Intn(3), r.Intn(3), r.Intn(3), r.Intn(3), r.Intn(2), r.Intn(2))
 			case x < 80:
 				if withHooks {
 					switch {
@@ -506,6 +513,20 @@ func (g *gen) managerHistory(n int, withHooks, withDeviant bool) {
 		g.sweep(line)
 	}
 	g.w.doRestart(g.tr, parseLine("restart mode=clean ev="+g.eventScope()))
+}
+
+// fundedAccount prefers an account the generator believes to hold at least 24 (1 in 6: any account).
+func (g *gen) fundedAccount(bal map[int]uint64) int {
+	var funded []int
+	for a := 1; a <= nAccounts; a++ {
+		if bal[a] >= 24 {
+			funded = append(funded, a)
+		}
+	}
+	if len(funded) == 0 || g.r.Chance(1, 6) {
+		return 1 + g.r.Intn(nAccounts)
+	}
+	return funded[g.r.Intn(len(funded))]
 }
 
 // eventScope picks the scope of the test event: one that a registered hook listens to, if there is any.
@@ -643,7 +664,12 @@ func TestEngine(t *testing.T) {
 	r := vhlib.NewRand(cfg.Seed)
 	only := cfg.Extra["only"] // restrict to one history kind (debugging)
 	for i := 0; i < cfg.N; i++ {
-		kind := []string{"S", "M", "S", "Mh", "R", "S", "M", "V", "Md", "B"}[i%10]
+		kinds := []string{"S", "M", "S", "Mh", "R", "S", "M", "V", "Md", "B"}
+		if cfg.Extra["c18"] == "1" {
+			// C18: histories with managers and restarts
+			kinds = []string{"M", "Mh", "V", "M", "Md", "M", "Mh", "V", "M", "S"}
+		}
+		kind := kinds[(int(cfg.Seed%10)+i)%10]
 		if only != "" {
 			kind = only
 		}
